@@ -13,7 +13,7 @@ def read_myosin(frame,
     image = Image.open(tiff_path)
 
     if kwargs.get("use_all", False):
-        big_edges_to_use = frame.big_edges_list
+        big_edges_to_use = list(frame.big_edges.values())
     else:
         big_edges_to_use = frame.internal_big_edges
 
